@@ -20,8 +20,14 @@ pub static ENGINE: Engine = Engine {
 
 const TAG: &str = "C16";
 
+thread_local! {
+    /// layout of the edge list of the case in progress: "\n", "\r\n", "Q" (every field in double
+    /// quotes, the CSV way) or "N" (no newline after the last line)
+    static LAYOUT: std::cell::RefCell<String> = std::cell::RefCell::new("\n".to_string());
+}
+
 fn case(edges: &[(String, String)], u: bool, all: bool) -> Value {
-    json!({"part": "graph", "edges": edges.iter().map(|(a, b)| vec![a.clone(), b.clone()]).collect::<Vec<_>>(), "undirected": u, "all": all})
+    json!({"part": "graph", "edges": edges.iter().map(|(a, b)| vec![a.clone(), b.clone()]).collect::<Vec<_>>(), "undirected": u, "all": all, "layout": LAYOUT.with(|l| l.borrow().clone())})
 }
 
 fn expected_sets(verts: &[String], edges: &[(String, String)], u: bool, all: bool) -> Vec<usize> {
@@ -42,10 +48,11 @@ fn check_graph(ctx: &mut Ctx, edges: &[(String, String)], u: bool, all: bool, wi
 }
 
 fn check_graph_eol(ctx: &mut Ctx, edges: &[(String, String)], u: bool, all: bool, with_rsbdd: bool, eol: &str) {
+    LAYOUT.with(|l| *l.borrow_mut() = eol.to_string());
     ctx.begin_case(|| case(edges, u, all));
     ctx.count("evaluations", 1);
     ctx.distinct(&(edges, u, all));
-    let key = format!("{TAG} edges {:?}{}{}{}", edges.iter().map(|(a, b)| format!("{a},{b}")).collect::<Vec<_>>(), if u { " -u" } else { "" }, if all { " -a" } else { "" }, if eol == "\n" { "" } else { " (CRLF line endings)" });
+    let key = format!("{TAG} edges {:?}{}{}{}", edges.iter().map(|(a, b)| format!("{a},{b}")).collect::<Vec<_>>(), if u { " -u" } else { "" }, if all { " -a" } else { "" }, match eol { "\n" => "", "Q" => " (quoted fields)", "N" => " (no final newline)", _ => " (CRLF line endings)" });
     let mut verts: Vec<String> = vec![];
     for (a, b) in edges {
         for v in [a, b] {
@@ -54,7 +61,11 @@ fn check_graph_eol(ctx: &mut Ctx, edges: &[(String, String)], u: bool, all: bool
             }
         }
     }
-    let csv: String = edges.iter().map(|(a, b)| format!("{a},{b}{eol}")).collect();
+    let csv: String = match eol {
+        "Q" => edges.iter().map(|(a, b)| format!("\"{a}\",\"{b}\"\n")).collect(),
+        "N" => edges.iter().map(|(a, b)| format!("{a},{b}")).collect::<Vec<_>>().join("\n"),
+        _ => edges.iter().map(|(a, b)| format!("{a},{b}{eol}")).collect(),
+    };
     let mut args = vec![];
     if u {
         args.push("-u".to_string());
@@ -409,6 +420,9 @@ fn run(ctx: &mut Ctx) {
         let edges: Vec<(String, String)> = (0..p3.len()).filter(|i| mask & (1 << i) != 0).map(|i| p3[i].clone()).collect();
         if ctx.mine(mask as u64) {
             check_graph_eol(ctx, &edges, mask % 2 == 0, mask % 4 >= 2, false, "\r\n");
+            // fields quoted the CSV way; no newline after the last line
+            check_graph_eol(ctx, &edges, mask % 2 == 1, mask % 4 >= 2, false, "Q");
+            check_graph_eol(ctx, &edges, mask % 4 < 2, mask % 2 == 0, false, "N");
         }
     }
     // names whose concatenations collide: (a_b, c) and (a, b_c) both spell a_b_c
@@ -528,5 +542,5 @@ fn replay(ctx: &mut Ctx, c: &Value) {
         check_graph_large(ctx, &edges, c["undirected"].as_bool().unwrap_or(false), c["all"].as_bool().unwrap_or(false));
         return;
     }
-    check_graph(ctx, &edges, c["undirected"].as_bool().unwrap_or(false), c["all"].as_bool().unwrap_or(false), true);
+    check_graph_eol(ctx, &edges, c["undirected"].as_bool().unwrap_or(false), c["all"].as_bool().unwrap_or(false), true, c["layout"].as_str().unwrap_or("\n"));
 }
